@@ -77,6 +77,9 @@ func RunProperty(pd *PropDef, repo, tier string, cache map[string]*Prog) *Outcom
 				cache[cfg.String()] = p
 			}
 		}
+		if len(p.Normalised) > 0 {
+			o.Extra["renamings_undone_before_analysis"] = p.Normalised
+		}
 		o.Merge(RunOn(pd, p, tier))
 	}
 	return o
